@@ -85,37 +85,6 @@ example : lookup (mkTree [1, 2, 3, 4, 5, 6, 7, 8, 9, 10, 11, 12, 12]) (2 ^ 64 - 
 open LbzVerif.Lemmas.PrefixCanon LbzVerif.Lemmas.TransmitSym LbzVerif.Lemmas.TreeSoundArith
   LbzVerif.Lemmas.TreeSound LbzVerif.Lemmas.TreeSoundTables
 
-theorem natToBits_split (a b v : Nat) :
-    Basic.natToBits (a + b) v = Basic.natToBits a (v >>> b) ++ Basic.natToBits b v := by
-  induction a with
-  | zero => simp [Basic.natToBits]
-  | succ a ih =>
-    rw [show a + 1 + b = (a + b) + 1 by omega, Basic.natToBits, Basic.natToBits, ih,
-      Nat.testBit_shiftRight, List.cons_append]
-    congr 2
-    omega
-
-theorem bitsMSB_eq (n v : Nat) : bitsMSB n v = Basic.natToBits n v := by
-  induction n with
-  | zero => rfl
-  | succ n ih =>
-    rw [bitsMSB, Basic.natToBits, ih]
-    congr 1
-    unfold Spec.Prefix.bit
-    rw [Nat.testBit_eq_decide_div_mod_eq]
-
-/-- The top `ℓ` bits of a window whose top 20 bits lie in the interval of
-symbol `i` are the code word of `i`. -/
-theorem window_code (lens : List Nat) (v l r i : Nat) (h : Dec lens (v / 2 ^ 44) l r i) :
-    v >>> (64 - l) = canonCode lens i := by
-  rw [h.code, Nat.shiftRight_eq_div_pow, Nat.div_div_eq_div_mul]
-  congr 1
-  unfold width
-  rw [← Nat.pow_add]
-  congr 1
-  have := h.l20
-  omega
-
 /-- **makeTree_sound.**  `lens` complete (Kraft sum one, lengths 1…20), at most
 258 symbols, `v` any 64-bit window except `2^64 − 1` (which the bit buffer of
 `retrieve()` cannot hold: it never has 64 live bits, so the lowest bit is 0).
@@ -136,7 +105,7 @@ theorem makeTree_sound (lens : List Nat) (hc : Complete lens) (hn : lens.length 
   obtain ⟨l, r, i, hd, hl⟩ := lookup_sound lens hc hn v hv
   have l20 := hd.l20
   have hsplit : Basic.natToBits 64 v = Basic.natToBits l (canonCode lens i) ++ Basic.natToBits (64 - l) v := by
-    rw [← window_code lens v l r i hd, ← natToBits_split]
+    rw [← top_bits_code lens v l r i hd, ← natToBits_split]
     congr 1
     omega
   refine ⟨i, hd.i_lt, by rw [hd.len]; exact hl, ?_, ?_⟩
@@ -160,64 +129,6 @@ example : lookup (mkTree [2, 3, 1, 3]) (0xB000000000000000) = some (257, 2) ∧
     Complete [2, 3, 1, 3] := by decide +kernel
 
 /-! ### `canon_lookup_bound` -/
-
-theorem walkUp_ge (B : List Nat) (v : Nat) : ∀ fuel k, k ≤ walkUp B v fuel k := by
-  intro fuel
-  induction fuel with
-  | zero => intro k; exact Nat.le_refl _
-  | succ f ih =>
-    intro k
-    unfold walkUp
-    split
-    · have := ih (k + 1); omega
-    · exact Nat.le_refl _
-
-theorem I_cons (a : Nat) (t : List Nat) (k : Nat) :
-    I (a :: t) k = I t k + (if a < k then 1 else 0) := by
-  induction k with
-  | zero => simp [I]
-  | succ k ih =>
-    rw [I, I, ih]
-    unfold cntL
-    rw [List.count_cons]
-    by_cases h1 : a < k
-    · have h2 : a < k + 1 := by omega
-      have hne : (a == k) = false := by simp; omega
-      simp [h1, h2, hne]; omega
-    · by_cases h2 : a = k
-      · subst h2; simp; omega
-      · have h3 : ¬ a < k + 1 := by omega
-        have hne : (a == k) = false := by simp; omega
-        simp [h1, h3, hne]
-
-theorem I_nil (k : Nat) : I [] k = 0 := by
-  induction k with
-  | zero => rfl
-  | succ k ih => simp [I, ih, cntL]
-
-theorem I_countP (lens : List Nat) (k : Nat) : I lens k = lens.countP (fun x => decide (x < k)) := by
-  induction lens with
-  | nil => simp [I_nil]
-  | cons a t ih =>
-    rw [I_cons, ih, List.countP_cons]
-    by_cases h : a < k <;> simp [h]
-
-theorem perm_length (lens : List Nat) (hr : ∀ l ∈ lens, 1 ≤ l ∧ l ≤ 20) :
-    (mkPerm lens).length = lens.length := by
-  rw [perm_eq', List.length_map]
-  have h0 : cntL lens 0 = 0 := cntL_zero lens (fun x hx => (hr x hx).1)
-  have hlen : ∀ k a, ((List.range' a k).flatMap (blk lens)).length = ((List.range' a k).map (cntL lens)).sum := by
-    intro k
-    induction k with
-    | zero => intro a; simp
-    | succ k ih => intro a; rw [List.range'_succ, List.flatMap_cons, List.length_append, ih, blk_length]; simp
-  rw [hlen]
-  have := I_add lens 1 20
-  rw [I_one lens h0, Nat.zero_add] at this
-  rw [← this, I_countP, List.countP_eq_length]
-  intro x hx
-  have := (hr x hx).2
-  simp; omega
 
 /-- **canon_lookup_bound.**  For a complete table of at most 258 symbols and any
 window `v < 2^64 − 1`, every array access of the lookup in `retrieve()` is in
